@@ -245,9 +245,34 @@ def check_curves(case):
             viol += v
             nev += n
             outcome += o
+        # history on ONE vectorised curve object (one parameter set per assessment point): evaluate, derive the minimum
+        # lifetime curve from it (as done for plotting after a mesh assessment), evaluate again - must be unchanged
+        if ram is not None:
+            fz = np.array([1.0, 1.125, 1.25])
+            vec = pd.Series({"P_RAM_Z": pd.Series(ram["P_RAM_Z"] * fz), "P_RAM_D": pd.Series(ram["P_RAM_D"] * fz),
+                             "d_1": ram["d_1"], "d_2": ram["d_2"]}).woehler_P_RAM
+            viol += _kept_vector_curve("RAM", vec, vec.calc_N, vec.calc_P_RAM, ram["P_RAM_D"] * 1.1, 5e4)
+            nev += 5
+        if raj is not None:
+            fz = np.array([1.0, 1.125, 1.25])
+            vec = pd.Series({"P_RAJ_Z": pd.Series(raj["P_RAJ_Z"] * fz), "P_RAJ_D_0": pd.Series(raj["P_RAJ_D_0"] * fz),
+                             "d_RAJ": raj["d_RAJ"]}).woehler_P_RAJ
+            viol += _kept_vector_curve("RAJ", vec, vec.calc_N, vec.calc_P_RAJ, raj["P_RAJ_D_0"] * 1.1, 5e4)
+            nev += 5
     except Exception as e:
         viol.append(_raised(e, "curves"))
     return viol, nev, outcome
+
+
+def _kept_vector_curve(kind, vec, calc_N, calc_P, P_probe, N_probe):
+    before = (np.asarray(calc_N(np.full(3, P_probe)), dtype=float), np.asarray(calc_P(np.full(3, N_probe)), dtype=float))
+    vec.get_woehler_curve_minimum_lifetime()
+    after = (np.asarray(calc_N(np.full(3, P_probe)), dtype=float), np.asarray(calc_P(np.full(3, N_probe)), dtype=float))
+    if not all(np.array_equal(a, b, equal_nan=True) for a, b in zip(before, after)):
+        return [("C09/curve-%s/vectorised-curve-changed-by-get_woehler_curve_minimum_lifetime" % kind,
+                 {"calc_N_before": before[0].tolist(), "calc_N_after": after[0].tolist(),
+                  "calc_P_before": before[1].tolist(), "calc_P_after": after[1].tolist()})]
+    return []
 
 
 def _raised(e, part):
@@ -426,10 +451,14 @@ def _run_calculator(curve, tables):
     else:
         n1, n2 = len(tables[0][0]), len(tables[0][1])
         recs = []
+        # assessment point labels 0..n-1, but NOT in sorted first-appearance order (a mesh lists its nodes as it likes);
+        # the unlabelled result arrays are ordered by sorted label, so table k is found at position label[k]
+        npt = len(tables)
+        label = [npt - 2 - k for k in range(npt - 1)] + [npt - 1]
         for h in range(n1 + n2):
             for a, (rows1, rows2) in enumerate(tables):
                 r = (list(rows1) + list(rows2))[h]
-                recs.append((h, a, float(r[0]), bool(r[1]), 1 if h < n1 else 2, 0.0))
+                recs.append((h, label[a], float(r[0]), bool(r[1]), 1 if h < n1 else 2, 0.0))
         col = pd.DataFrame(recs, columns=["hysteresis_index", "assessment_point_index", "P_RAM", "is_closed_hysteresis",
                                           "run_index", "S_min"]).set_index(["hysteresis_index", "assessment_point_index"])
     with warnings.catch_warnings():
@@ -438,6 +467,8 @@ def _run_calculator(curve, tables):
             dc = DC.DamageCalculatorPRAM(col, w)
             nt = np.atleast_1d(np.asarray(dc.lifetime_n_times_load_sequence, dtype=float))
             nc = np.atleast_1d(np.asarray(dc.lifetime_n_cycles, dtype=float))
+    if len(tables) > 1 and nt.shape == (len(tables),) and nc.shape == (len(tables),):
+        nt, nc = nt[label], nc[label]
     return nt, nc
 
 
